@@ -442,8 +442,12 @@ class PooledClient(Entity):
                 delay,
             )
 
-            # Wait for retry delay
-            yield delay
+            # Wait for retry delay. The events produced by releasing the
+            # connection (the pool's idle-timeout check, stamped relative to
+            # the release instant) are scheduled now, as side effects of the
+            # yield: handing them over only after the delay would push them
+            # into the past whenever the delay exceeds the idle timeout.
+            yield delay, release_events
 
             # Create retry event
             retry_event = Event(
@@ -462,10 +466,7 @@ class PooledClient(Entity):
                 },
             )
 
-            all_events = [retry_event]
-            if release_events:
-                all_events.extend(release_events)
-            return all_events
+            return [retry_event]
 
         # No more retries - fail the request
         self._in_flight.pop(flight_key)
